@@ -6,9 +6,11 @@ metamorphic runs (rescore alone, regroup with another max_chunk, reorder experim
 samples, padding width, all entry points agree) and finiteness iff some triple has positive distance.
 
 Tie: the Lean driver evaluates `scoreDirect`, `scoreVectorised`, the two wrappers, `scorerScore`,
-`arraySplit` and `padRagged` of Batchie.Model.Dbal at Float on the same inputs (floats travel as 64-bit
-patterns, the triple lists are recorded from the real run through a recording generator and the real
-`get_combination_at_sorted_index`).
+`arraySplit`, `padRagged` and `allTriples` of Batchie.Model.Dbal at Float on the same inputs (floats travel as
+64-bit patterns, the triple lists are recorded from the real run through a recording generator and the real
+`get_combination_at_sorted_index`).  `scoreDirect` is a plain sum of products, so its Float evaluation is only
+compared when the largest log-weight lies in (-600, 600); the code-shaped definitions (max-shifted logsumexp)
+are compared on every case.
 """
 import math
 import random
@@ -21,10 +23,10 @@ from vlib import common
 common.use_repo_sources()
 
 RULE = ("random plate sets: 1-12 plates of unequal sizes 1..40 (single plate, size-1 plates included), n_thetas 3..8 "
-        "(thorough 3..14) with C(n,3) <= max_combos so every triple is enumerated, means at three scales, variances "
+        "(thorough 3..14) with C(n,3) <= max_combos so every triple is enumerated, means at four scales (0.01..30), variances "
         "log-uniform over 1e-3..1e3 (per cell, or per (plate, theta) for the homoscedastic entry point), symmetric "
         "non-negative distance matrices with no / some / most / all-but-one-pair / all entries zero, distance_factor "
-        "1 (mostly), 0.5, 2, 3. Non-trivial: >= 2 plates of different sizes and some triple with positive distance.")
+        "1 (mostly), 0.5, 2, 3; plus the scorer driven through real Screen/Plate/ThetaHolder/ChunkedDistanceMatrix objects. Non-trivial: >= 2 plates of different sizes and some triple with positive distance.")
 
 RTOL = 1e-9
 ATOL = 1e-9
@@ -197,7 +199,7 @@ def gen(subseed, big):
     factor = r.choice([1.0, 1.0, 1.0, 1.0, 0.5, 2.0, 3.0])
     zero_mode = r.choice(["none", "none", "some", "most", "onepair", "all"])
     homo = r.random() < 0.3
-    scale = r.choice([0.01, 1.0, 1.0, 3.0])
+    scale = r.choice([0.01, 1.0, 1.0, 3.0, 30.0])
     U = np.triu(10.0 ** g.uniform(-3, 1, size=(n, n)) if r.random() < 0.5 else g.uniform(0, 2, size=(n, n)), 1)
     if zero_mode == "some":
         U = U * (g.uniform(size=(n, n)) > 0.3)
@@ -288,8 +290,9 @@ def eval_case(case, want_tie=True):
             bad("score finite iff some triple has positive distance", {"plate": k, "score": het[k]},
                 {"some_positive_distance": pos}, "finite")
             break
-    if want_tie and safe:
+    if want_tie:
         tie.append(("het", "dbal.het %d %s %s %s %s" % (f2b(factor), enc_mat(Dl), enc_triples(ts_het[0]), enc_3d(means), enc_3d(variances)), het))
+    if want_tie and safe:
         tie.append(("direct", "dbal.direct %d %s %s %s %s" % (f2b(factor), enc_mat(Dl), enc_triples(ts_het[0]), enc_3d(means), enc_3d(variances)), het))
 
     # ---- entry point 2: vectorised on arrays padded wider than needed -------------------------
@@ -304,7 +307,7 @@ def eval_case(case, want_tie=True):
         vec = [float(x) for x in vec]
         if not all_close(vec, ref):
             bad("vectorised scores on wider padding differ from the direct estimator", {"pad_width": W, "scores": vec}, ref, "padding")
-        if want_tie and safe:
+        if want_tie:
             tie.append(("vec", "dbal.vec %d %s %s %s %s" % (f2b(factor), enc_mat(Dl), enc_triples(ts_vec[0]), enc_3d(pm), enc_3d(pv)), vec))
 
     # ---- entry point 3: homoscedastic ----------------------------------------------------------
@@ -318,7 +321,7 @@ def eval_case(case, want_tie=True):
             hom = [float(x) for x in hom]
             if not all_close(hom, ref):
                 bad("homoscedastic scores differ from the direct estimator", hom, ref, "entrypoints")
-            if want_tie and safe:
+            if want_tie:
                 tie.append(("hom", "dbal.hom %d %s %s %s %s" % (f2b(factor), enc_mat(Dl), enc_triples(ts_hom[0]), enc_3d(means), enc_mat(hv.tolist())), hom))
 
     # ---- entry point 4: the scorer (factor is always 1.0 there) --------------------------------
@@ -343,7 +346,7 @@ def eval_case(case, want_tie=True):
         if not all_close(got, ref1):
             bad("scorer result for a plate differs from the direct estimator of that plate",
                 {"max_chunk": mc, "scores": got}, ref1, "scorer")
-        if want_tie and safe and mc == picked[0]:
+        if want_tie and mc == picked[0]:
             line = "dbal.scorer %d %d %s %s %s %s %s" % (n, mc, enc_mat(Dl), "/".join(enc_triples(t) for t in tss),
                                                         ",".join(str(i) for i in ids), enc_3d(means), enc_3d(variances))
             tie.append(("scorer", line, got))
@@ -393,6 +396,15 @@ def static_ties(ctx, res, lines, expect, meta):
             expect.append("-" if not parts else ",".join(str(len(p)) for p in parts))
             meta.append(("split", None))
             res.evaluations += 1
+    for n in range(0, ctx.scale(9, 15)):
+        C = n * (n - 1) * (n - 2) // 6 if n >= 3 else 0
+        ts = [tuple(int(x) for x in gd.get_combination_at_sorted_index(i, n, 3)) for i in range(C)]
+        if len(set(ts)) != C or any(not (n > a > b > c >= 0) for a, b, c in ts):
+            res.fail("unranking does not enumerate every descending triple once", {"kind": "alltriples", "n": n}, ts[:10], "C(n,3) distinct descending triples")
+        lines.append("dbal.alltriples %d" % n)
+        expect.append(enc_triples(ts))
+        meta.append(("alltriples", None))
+        res.evaluations += 1
     g = np.random.default_rng(r.randrange(2 ** 32))
     for t in range(ctx.scale(40, 400)):
         npl = r.randint(1, 5)
@@ -471,6 +483,93 @@ def error_cases(res, lines, expect, meta):
     res.count("error_cases", 7)
 
 
+def real_objects_case(subseed):
+    """the scorer driven through the repo's own object graph: Screen -> Plate views, ThetaHolder,
+    predict_mean_all / predict_variance_all, ChunkedDistanceMatrix.to_dense"""
+    from batchie.data import Screen
+    from batchie.core import ThetaHolder, Theta
+    from batchie.distance_calculation import ChunkedDistanceMatrix
+    from batchie.models.main import predict_mean_all, predict_variance_all
+    from batchie.scoring import gaussian_dbal as gd
+
+    class TableTheta(Theta):
+        def __init__(self, m, v):
+            self.m, self.v = m, v
+
+        def predict_conditional_mean(self, d):
+            return self.m[d.selection_vector]
+
+        def predict_conditional_variance(self, d):
+            return self.v[d.selection_vector]
+
+        def predict_viability(self, d):
+            return self.m[d.selection_vector]
+
+        def private_parameters_dict(self):
+            return {}
+
+        def shared_parameters_dict(self):
+            return {}
+
+    r = random.Random(subseed)
+    g = np.random.default_rng(r.randrange(2 ** 63))
+    n = r.choice([3, 4, 5, 6])
+    sizes = [r.choice([1, 2, 3, 5, 9]) for _ in range(r.choice([1, 2, 3, 4, 6]))]
+    order = list(range(len(sizes)))
+    r.shuffle(order)
+    pn = []
+    for i in order:
+        pn += ["plate%02d" % i] * sizes[i]
+    rows = list(range(len(pn)))
+    r.shuffle(rows)           # plates interleaved in the screen
+    pn = [pn[i] for i in rows]
+    N = len(pn)
+    screen = Screen(observations=np.zeros(N), observation_mask=np.zeros(N, dtype=bool),
+                    sample_names=np.array([r.choice("abc") for _ in range(N)], dtype=str),
+                    plate_names=np.array(pn, dtype=str),
+                    treatment_names=np.array([[r.choice("xyz"), r.choice("uvw")] for _ in range(N)], dtype=str),
+                    treatment_doses=np.array([[r.choice([1.0, 2.0]), r.choice([1.0, 3.0])] for _ in range(N)]))
+    M = g.normal(size=(n, N)) * r.choice([0.1, 1.0, 3.0])
+    V = 10.0 ** g.uniform(-3, 3, size=(n, N))
+    th = ThetaHolder(n)
+    for i in range(n):
+        th.add_theta(TableTheta(M[i], V[i]))
+    U = np.triu(g.uniform(0, 2, size=(n, n)) * (g.uniform(size=(n, n)) > r.choice([0.0, 0.4])), 1)
+    D = U + U.T
+    dm = ChunkedDistanceMatrix(n)
+    for i in range(n):
+        for j in range(i):
+            dm.add_value(i, j, D[i, j])
+    plates = {p.plate_id: p for p in screen.plates}
+    ids = [int(k) for k in plates.keys()]
+    all_triples = [(a, b, c) for a in range(n) for b in range(a) for c in range(b)]
+    fails, tie = [], []
+    means = [predict_mean_all(screen=plates[k], thetas=th) for k in ids]
+    variances = [predict_variance_all(screen=plates[k], thetas=th) for k in ids]
+    for k, m, v in zip(ids, means, variances):
+        sel = plates[k].selection_vector
+        if not (np.array_equal(m, M[:, sel]) and np.array_equal(v, V[:, sel])):
+            fails.append(("predict_*_all does not return the (n_thetas, n_experiments) table of the plate", {"plate": k}, "rows of the table", "predict"))
+    ref = [ref_score(ref_logweights(D.tolist(), 1.0, M[:, plates[k].selection_vector].tolist(), V[:, plates[k].selection_vector].tolist(), all_triples)) for k in ids]
+    P = len(ids)
+    for mc in sorted(set([1, 2, P, 50])):
+        rng = RecRng(r.randrange(2 ** 32))
+        try:
+            out = gd.GaussianDBALScorer(max_chunk=mc).score(plates=plates, distance_matrix=dm, samples=th, rng=rng, progress_bar=False)
+        except Exception as e:  # noqa
+            fails.append(("scorer raises on a real screen", {"max_chunk": mc, "error": type(e).__name__ + ": " + str(e)[:200]}, "scores", "raises"))
+            continue
+        got = [float(out[k]) for k in ids] if [int(k) for k in out.keys()] == ids else None
+        if got is None or not all_close(got, ref):
+            fails.append(("scorer result on real plates differs from the direct estimator of each plate",
+                          {"max_chunk": mc, "ids": ids, "scores": got if got is not None else [int(k) for k in out.keys()]}, ref, "scorer"))
+        elif mc == 2:
+            tss = triples_of(gd, rng.calls, n)
+            tie.append(("scorer", "dbal.scorer %d %d %s %s %s %s %s" % (n, mc, enc_mat(D.tolist()), "/".join(enc_triples(t) for t in tss),
+                                                                      ",".join(str(i) for i in ids), enc_3d(means), enc_3d(variances)), got))
+    return fails, tie, dict(n=n, sizes=[int(plates[k].size) for k in ids])
+
+
 def run(ctx, res):
     res.rule = RULE
     drv = ctx.driver
@@ -478,7 +577,7 @@ def run(ctx, res):
     static_ties(ctx, res, lines, expect, meta)
     error_cases(res, lines, expect, meta)
 
-    n_cases = ctx.scale(150, 3000, 1500)
+    n_cases = ctx.scale(500, 3000, 2000)
     big = ctx.tier == "thorough" or ctx.mode == "search"
     seeds = ctx.subrng("cases")
     tie_rows = []
@@ -493,7 +592,7 @@ def run(ctx, res):
         res.count("homoscedastic" if info["homo"] else "heteroscedastic")
         if 1 in info["sizes"]:
             res.count("has_size1_plate")
-        res.count("tie.safe_range" if info["tie_safe"] else "tie.skipped_out_of_float_range")
+        res.count("direct_tie.in_double_range" if info["tie_safe"] else "direct_tie.skipped_unshifted_sum_leaves_double_range")
         if len(set(info["sizes"])) >= 2 and info["positive"]:
             res.nontrivial.add((info["n"], tuple(info["sizes"]), info["zero_mode"], info["factor"], info["homo"]))
         for (what, observed, required, sig) in fails:
@@ -504,6 +603,19 @@ def run(ctx, res):
         if len(res.samples) < 4:
             res.sample(dict(case, n=info["n"], sizes=info["sizes"], zero_mode=info["zero_mode"], factor=info["factor"], homoscedastic=info["homo"]))
         res.traces_validated += 1 if tie else 0
+
+    rseeds = ctx.subrng("real")
+    for t in range(ctx.scale(40, 400, 200)):
+        case = {"kind": "realobjects", "subseed": rseeds.randrange(2 ** 48)}
+        fails, tie, info = real_objects_case(case["subseed"])
+        res.evaluations += 1
+        res.count("real_objects")
+        if len(set(info["sizes"])) >= 2:
+            res.nontrivial.add(("real", info["n"], tuple(info["sizes"])))
+        for (what, observed, required, sig) in fails:
+            res.fail(what, dict(case, **info), observed, required, signature="C05:" + sig)
+        for (where, line, impl) in tie:
+            tie_rows.append((where, case, line, impl))
 
     if drv is not None:
         got = drv.ask(lines)
@@ -532,6 +644,11 @@ def run(ctx, res):
 
 
 def replay(ctx, case, res):
+    if case.get("kind") == "realobjects":
+        fails, _tie, _info = real_objects_case(case["subseed"])
+        for (what, observed, required, sig) in fails:
+            res.fail(what, case, observed, required, signature="C05:" + sig)
+        return
     if case.get("kind") != "plateset":
         run(ctx, res)
         return
